@@ -82,6 +82,7 @@ class CounterStyle(dict):
             # Handle extends
             while extends:
                 if system in self:
+                    extended_name = system
                     extended_counter = self[system]
                     counter['system'] = extended_counter['system']
                     previous_types.append(system)
@@ -90,8 +91,12 @@ class CounterStyle(dict):
                     else:
                         extends, system = None, 'symbolic'
                     if extends and system in previous_types:
-                        extends, system = 'extends', 'decimal'
-                        continue
+                        # Styles in a cycle extend decimal. A style extending
+                        # itself keeps its own descriptors.
+                        extends, cycle_start = 'extends', system
+                        system = 'decimal'
+                        if cycle_start != extended_name:
+                            continue
                     for name, value in extended_counter.items():
                         if counter[name] is None and value is not None:
                             counter[name] = value
